@@ -25,11 +25,12 @@ if ! git apply --3way "$PATCH" 2>/tmp/seedtest.err && ! patch -p1 -s --fuzz=3 < 
 fi
 git reset -q
 cd /verif
-VERIF_REPO=$R ./run $ID $TIER > /tmp/seedtest.$ID.$$.out 2>&1
+VERIF_BUILD=/verif/.build/alt-seed-$$ VERIF_REPO=$R ./run $ID $TIER > /tmp/seedtest.$ID.$$.out 2>&1
 rc=$?
 grep -E "^(VIOLATION|KNOWN-FINDING|violation key|C[0-9]+ (quick|thorough):|run:)" /tmp/seedtest.$ID.$$.out | cut -c1-400
 echo "seedtest: exit=$rc"
 rm -f /tmp/seedtest.$ID.$$.out
+rm -rf /verif/.build/alt-seed-$$
 cleanup
 # the evidence file was rewritten by a run against a modified tree: restore the committed one
 git -C /verif checkout -- evidence/$ID.json 2>/dev/null
